@@ -1,5 +1,6 @@
 (* C03 - Condition results combine by the explicit / implicit / blocker law. *)
-From BEI Require Import Model.Tracker Spec.Law Proofs.TrackerP.
+From BEI Require Import Model.Action Spec.Events Spec.Law Proofs.TrackerP Proofs.ActionP Proofs.MergeP.
+Open Scope Z_scope.
 
 (* for any number, order and mix of conditions and any value: folding the (kind, result) pairs into a
    tracker as apply_conditions does, then reading state() / events_blocked(), is the law *)
@@ -12,6 +13,25 @@ Proof. exact tracker_law. Qed.
 Theorem C03_conditions_keep_value : forall rs t, t_value (run_results rs t) = t_value t.
 Proof. exact run_results_value. Qed.
 
+(* at action level and with both levels combined: what one evaluation of an action stores and emits is
+   the law of (the merged results of the inputs ++ the results of the action-level conditions) with the
+   value after the action-level modifiers; events are delivered iff no events-only blocker among them
+   failed, while state and value are stored either way *)
+Theorem C03_both_levels : forall m tm r c dev recips ab,
+  let a := ab_id ab in
+  let fin := merged_pair m tm r c dev ab in
+  let v1 := fold_mods (look_of m) tm (snd fin) (ab_mods ab) in
+  let rs := fst fin ++ cond_results (look_of m) tm v1 (ab_conds ab) in
+  let d' := data_update (vdelta tm) (old_data m a) (law rs v1) (convert (aid_dim a) v1) in
+  let o := action_update m tm r c dev recips ab in
+  lookup a (o_actions o) = Some d' /\
+  o_events o = Some (if suppressed rs then [] else flat_map (fun k => map (mk_event a d' k) recips) (table (d_state (old_data m a)) (law rs v1))).
+Proof. exact action_update_merged. Qed.
+(* and on regular frames (C04) the merged results are exactly those of the contributing inputs, in binding order *)
+Theorem C03_merged_results : forall acc d ins,
+  regular acc d ins = true -> fst (fold_left (merge acc) ins ([], vzero d)) = concat (map fst (contrib ins)).
+Proof. intros acc d ins H. exact (proj1 (most_significant_win acc d ins H)). Qed.
+
 Example C03_nonvacuous :
   law [(KBlocker false, SFired); (KExplicit, SOngoing); (KImplicit, SFired); (KBlocker true, SNone)] (VB true) = SOngoing /\
   suppressed [(KBlocker false, SFired); (KExplicit, SOngoing); (KImplicit, SFired); (KBlocker true, SNone)] = true /\
@@ -20,3 +40,5 @@ Proof. repeat split. Qed.
 
 Print Assumptions C03_tracker_law.
 Print Assumptions C03_conditions_keep_value.
+Print Assumptions C03_both_levels.
+Print Assumptions C03_merged_results.
